@@ -17,6 +17,7 @@ pub fn run(stim: &Value, rec: &Rec) {
     let lazy = stim["lazy"].as_bool().unwrap_or(true);
     let ncalls = stim["calls"].as_u64().unwrap_or(5);
     let stim_ct = stim["connect_timeout"].as_bool().unwrap_or(false);
+    let stim_kinds: Vec<String> = stim["fail_kinds"].as_array().map(|a| a.iter().filter_map(|x| x.as_str().map(|s| s.to_string())).collect()).unwrap_or_default();
     let env = Arc::new(Mutex::new(Env { script, pos: 0, consumed: vec![], kills: vec![], invocations: 0 }));
     let log = rec.clone();
     let hook_log = rec.clone();
@@ -26,11 +27,14 @@ pub fn run(stim: &Value, rec: &Rec) {
     block_on_paused(async move {
         let env2 = env.clone();
         let log2 = log.clone();
+        let fail_kinds0: Vec<String> = stim_kinds.clone();
         let connector = tower::service_fn(move |_: http::Uri| {
+            let fail_kinds = fail_kinds0.clone();
             let env = env2.clone();
             let log = log2.clone();
             let server_stim = server_stim.clone();
             async move {
+                let inv = env.lock().unwrap().invocations;
                 let r = { let mut e = env.lock().unwrap(); e.invocations += 1;
                     let r = if e.pos < e.script.len() && e.script[e.pos] != "D" { let r = e.script[e.pos].clone(); e.pos += 1; r } else { "F".to_string() };
                     e.consumed.push(r.clone()); r };
@@ -43,7 +47,11 @@ pub fn run(stim: &Value, rec: &Rec) {
                     tokio::spawn(async move { let _ = tonic::transport::Server::builder().add_service(svc).serve_with_incoming(incoming).await; });
                     Ok(hyper_util::rt::TokioIo::new(c_io))
                 } else {
-                    Err(std::io::Error::new(std::io::ErrorKind::ConnectionRefused, "scripted connect failure"))
+                    // stim.fail_kinds: the io::ErrorKind of the n-th failed attempt (cycled); whatever the kind, no connection can be made
+                    let kind = match fail_kinds.get((inv as usize) % fail_kinds.len().max(1)).map(|s| s.as_str()).unwrap_or("refused") {
+                        "timed_out" => std::io::ErrorKind::TimedOut, "not_found" => std::io::ErrorKind::NotFound, "denied" => std::io::ErrorKind::PermissionDenied,
+                        "other" => std::io::ErrorKind::Other, "reset" => std::io::ErrorKind::ConnectionReset, _ => std::io::ErrorKind::ConnectionRefused };
+                    Err(std::io::Error::new(kind, "scripted connect failure"))
                 }
             }
         });
